@@ -104,7 +104,13 @@ def start_oracle(spec: dict, run, prop: str = "C03") -> tuple[list[dict], Counte
                 jump_pushed.add(str(a["a"]))
     last_rearm: dict[str, int] = {}
     inj_seqs = [i["seq"] for i in run.injected if i["do"] in ("early_start", "dup_start")]
+    # a stage named as the target of an applied jump is "the explicit target of a jump" until it next starts,
+    # whichever StartStage message gets there first (the bypass flag lives in the stage row, not in the message)
+    jump_mark_target = {m["seq"]: jump_groups.get(groups.of(m["seq"])) for m in marks_rows}
+    pending_target: set = set()
     for a in run.audit:
+        if a["seq"] in jump_mark_target and jump_mark_target[a["seq"]]:
+            pending_target.add(jump_mark_target[a["seq"]])
         if a["kind"] != "status" or a["op"] != "stage":
             continue
         sid = a["a"]
@@ -120,9 +126,15 @@ def start_oracle(spec: dict, run, prop: str = "C03") -> tuple[list[dict], Counte
             g = groups.of(last_rearm[sid])
             if jump_groups.get(g) == ref:
                 obs["jump_target_starts"] += 1
+                pending_target.discard(ref)
                 continue
         tag_here = groups.tag(groups.of(q))
         if tag_here and tag_here[0] == "StartStage" and str(tag_here[1]) in jump_pushed:
+            obs["jump_target_starts"] += 1
+            pending_target.discard(ref)
+            continue
+        if ref in pending_target:
+            pending_target.discard(ref)
             obs["jump_target_starts"] += 1
             continue
         ups = {u: tl.at(ids[u], q) for u in sd.get("req") or [] if u in ids}
